@@ -55,4 +55,15 @@ MUTANTS = [
         "            prop = self._properties.copy()\n            if properties is not None:\n                prop &= properties\n        else:")]},
     {'id': 'ctx-eq-ignores-properties-order', 'expect': ['C14'], 'edits': [(CX,
         "                and self.properties == other.properties", "                and set(self.properties) == set(other.properties)")]},
+    {'id': 'fromlist-lower-shortlex', 'expect': ['C11'], 'edits': [(LA,
+        "                c.lower_neighbors = tuple(sorted(lower, key=longlex))\n        else:",
+        "                c.lower_neighbors = tuple(sorted(lower, key=shortlex))\n        else:")]},
+    {'id': 'fromlist-indexmap-after-sort', 'expect': ['C11'], 'edits': [(LA,
+        "            index_map = dict(enumerate(concepts))\n            shortlex = inst._shortlex\n            longlex = inst._longlex\n            concepts.sort(key=shortlex)",
+        "            shortlex = inst._shortlex\n            longlex = inst._longlex\n            concepts.sort(key=shortlex)\n            index_map = dict(enumerate(concepts))")]},
+    {'id': 'tolist-lower-by-index', 'expect': ['C11'], 'edits': [(LA,
+        "tuple(l.index for l in c.lower_neighbors))", "tuple(sorted(l.index for l in c.lower_neighbors)))")]},
+    {'id': 'annotate-skip-bottom-objects', 'expect': ['C10', 'C11'], 'edits': [(LA,
+        "            extent = context.extension(context.intension([o]), raw=True)\n            c = mapping[extent]\n            if c.objects:",
+        "            extent = context.extension(context.intension([o]), raw=True)\n            c = mapping[extent]\n            if not extent & (extent - 1) and len(mapping) > 6:\n                pass\n            if c.objects:")]},
 ]
